@@ -28,6 +28,8 @@ def run_program(prog, flavours=("sync",), model=None, link_to=False, compare_tre
     m.reset()
     impls = [ImplProc(f, cache, ext, link_to=link_to, env=env, timeout_ms=timeout_ms) for f in flavours]
     times, steps, ok, tree_reason = {}, [], True, None
+    raced = False
+    content_bad = []
     try:
         for idx, op in enumerate(prog):
             if op["op"] == "damage":
@@ -64,6 +66,12 @@ def run_program(prog, flavours=("sync",), model=None, link_to=False, compare_tre
             if ci[0] == "unsupported":
                 reason = None           # no such entry point: the model op was still executed; caller avoids these
                 reason = "unsupported-op-in-program"
+            elif op["op"] == "wabandon" and cm[0] == "ok" and ci[0] == "ok" and cm[1] != ci[1]:
+                # the blocking task finished before the single poll (scheduling): the cancellation did not happen;
+                # nothing to compare from here on — not a disagreement
+                steps.append((op, cm, ci, None, obs))
+                raced = True
+                break
             else:
                 reason = O.results_equal(cm, ci, times)
             steps.append((op, cm, ci + ((r.get("msg"),) if ci[0] in ("panic", "err") else ()), reason, obs))
@@ -72,17 +80,24 @@ def run_program(prog, flavours=("sync",), model=None, link_to=False, compare_tre
                 if stop_on_first: break
             if ci[0] in ("hang", "dead"):
                 break
-        if ok and compare_tree == "end":
+        if ok and compare_tree == "end" and not raced:
             tree_reason = compare_trees(m, cache, ext, times)
             if tree_reason is not None:
                 ok = False
+        if not ok and not any(op["op"] == "damage" for op in prog):
+            # direct oracle for C03 on a disagreeing program: every file under content-v2 hashes to its path
+            try:
+                from .steps import content_oracle
+                content_bad = content_oracle(cache)
+            except Exception:
+                content_bad = []
     finally:
         for ip in impls:
             ip.close()
         if own_model:
             m.close()
         shutil.rmtree(base, ignore_errors=True)
-    return {"steps": steps, "tree": tree_reason, "ok": ok}
+    return {"steps": steps, "tree": tree_reason, "ok": ok, "raced": raced, "content_bad": content_bad}
 
 def compare_trees(m, cache, ext, times):
     first, extra = m.cmd("dump")
